@@ -40,7 +40,8 @@ def gen_ast(rng):
         ops = []
         src = "%sa" if s == 0 else f"%t{s - 1}"
         dst = "%so" if s == nst - 1 else f"%t{s}"
-        if s in (0, nst - 1) or rng.random() < 0.5:
+        if (s in (0, nst - 1) and not (s == nst - 1 and rng.random() < 0.3)) or (s not in (0, nst - 1) and rng.random() < 0.5):
+            # (the last stage is usually a copy back; sometimes a kernel writes the result itself)
             ops.append({"k": "copy", "src": src, "dst": dst, "tag": t()})
         else:
             ins = [src]
@@ -74,6 +75,8 @@ def gen_ast(rng):
     tail = None
     if rng.random() < 0.12:
         tail = {"tag": t(), "arg": rng.choice(["%off", "%i"])}  # an op behind the last barrier: not the recognised shape
+        if rng.random() < 0.5:
+            tail["sync"] = True
     alias = None
     if rng.random() < 0.1:
         # the consumer stage reads temporary J through a view of it that was taken in front of the loop
@@ -97,10 +100,11 @@ def gen_ast(rng):
     ring = rng.choice([0, 0, 0, 3, 4])  # the side output goes to a ring of `ring` slots: an arith.remui among the index ops
     same_array = rng.random() < 0.08  # the result of iteration i is stored to tile i+1 of the array the first stage loads from
     alias_inner = alias is not None and rng.random() < 0.5  # ... the view is taken inside the loop body (among the index ops)
+    outer = rng.choice([0, 0, 0, 0, 0, 2, 3])  # trip count of an enclosing loop whose body ends with the pipelined loop
     nested_index = rng.random() < 0.08  # the tile offset is computed inside a region of an index op (an scf.if yielding it)
     carried_off = rng.random() < 0.08  # the tile offset is carried through the loop as an iter_arg and advanced among the index ops
     init_acc = rng.random() < 0.08 and accumulator is None  # one buffer is written by two stages: initialised, then accumulated into
-    return {"nst": nst, "tmps": ntmp, "skip": skip is not None, "tail": tail, "ring": ring, "post": post, "alias": alias, "lb_shared": lb_shared, "alloc_in_loop": alloc_in_loop and alias is None and post is None and not scratch_views, "scratch_views": scratch_views and alias is None and post is None, "accumulator": accumulator, "same_array": same_array, "alias_inner": alias_inner, "init_acc": init_acc, "carried_off": carried_off, "nested_index": nested_index and not carried_off, "const_bounds": rng.random() < 0.75, "stages": stages}
+    return {"nst": nst, "tmps": ntmp, "skip": skip is not None, "tail": tail, "ring": ring, "post": post, "alias": alias, "lb_shared": lb_shared, "alloc_in_loop": alloc_in_loop and alias is None and post is None and not scratch_views, "scratch_views": scratch_views and alias is None and post is None, "accumulator": accumulator, "same_array": same_array, "alias_inner": alias_inner, "init_acc": init_acc, "carried_off": carried_off, "nested_index": nested_index and not carried_off, "outer": outer, "const_bounds": rng.random() < 0.75, "stages": stages}
 
 
 TVS = 'memref<' + str(E) + 'xi32, strided<[1], offset: {off}>, "L1">'
@@ -165,6 +169,12 @@ def emit(ast, env=None) -> str:
     e(f"    %g = memref.alloc() {{vsite = 9 : i64}} : {T1}")
     e(f'    "memref.copy"(%G, %g) {{vtag = 99 : i64}} : ({T1}, {T1}) -> ()')
     e('    "snax.cluster_sync_op"() : () -> ()')
+    if ast.get("outer"):
+        # the pipelined loop is the last operation in the body of an enclosing loop
+        e("    %oc0 = arith.constant 0 : index")
+        e("    %oc1 = arith.constant 1 : index")
+        e(f'    %ocn = arith.constant {ast["outer"]} : index')
+        e("    scf.for %oi = %oc0 to %ocn step %oc1 {")
     if ast.get("carried_off"):
         e("    %off_init = arith.constant 0 : index")
         e(f"    %off_end = scf.for %i = {lb} to {ub} step {st} iter_args(%off = %off_init) -> (index) {{")
@@ -226,9 +236,13 @@ def emit(ast, env=None) -> str:
         e('      "snax.cluster_sync_op"() : () -> ()')
     if ast.get("tail"):
         e(f'      "test.op"({ast["tail"]["arg"]}) {{vtag = {ast["tail"]["tag"]} : i64}} : (index) -> ()')
+        if ast["tail"].get("sync"):
+            e('      "snax.cluster_sync_op"() : () -> ()')  # ... itself followed by a barrier
     if ast.get("carried_off"):
         e("      scf.yield %off_next : index")
     e("    }")
+    if ast.get("outer"):
+        e("    }")
     if ast.get("init_acc") and not ast.get("post"):
         e(f'    "memref.copy"(%acc2, %P) {{vtag = 93 : i64}} : ({T1}, {T1}) -> ()')  # the running result is read behind the loop
     if ast.get("post"):
@@ -274,6 +288,8 @@ def shrink_ast(ast):
         yield dict(ast, scratch_views=False)
     if ast.get("accumulator") is not None:
         yield dict(ast, accumulator=None)
+    if ast.get("outer"):
+        yield dict(ast, outer=0)
     for flag in ("same_array", "alias_inner", "init_acc", "carried_off", "nested_index"):
         if ast.get(flag):
             yield dict(ast, **{flag: False})
